@@ -11,6 +11,8 @@ theorem waitShut_step (hi : Inv s) (h : step s l = some s') : ∀ u, s'.pc u = .
   have h1 := hi.waitShut u
   have h2 := hi.mutex u
   have h3 := hi.mutex l.tid
+  have hA := ph_of_pastChk hi l.tid
+  have hB := ph_of_inTask hi l.tid
   step_cases h
   all_goals (
     by_cases ht : u = l.tid
@@ -26,6 +28,8 @@ theorem bcastDone_step (hi : Inv s) (h : step s l = some s') : 6 ≤ ph (s'.pc 0
   have h4 := hi.othersNotM l.tid
   have h5 := hi.mainIsM
   have h6 := fun (w : Tid) => List.mem_of_mem_erase (a := u) (b := w) (l := s.waiters)
+  have hA := ph_of_pastChk hi l.tid
+  have hB := ph_of_inTask hi l.tid
   step_cases h
   all_goals (
     by_cases h0 : l.tid = 0
@@ -42,6 +46,8 @@ theorem breakChk_step (hi : Inv s) (h : step s l = some s') :
   have h3 := hi.mutex l.tid
   have h4 := hi.shutSet
   have h5 := hi.othersNotM l.tid
+  have hA := ph_of_pastChk hi l.tid
+  have hB := ph_of_inTask hi l.tid
   step_cases h
   all_goals (
     by_cases ht : u = l.tid
@@ -56,6 +62,8 @@ theorem breakLen_step (hi : Inv s) (h : step s l = some s') : ∀ u, s'.pc u = .
   have h1 := hi.breakLen u
   have h2 := hi.mutex u
   have h3 := hi.mutex l.tid
+  have hA := ph_of_pastChk hi l.tid
+  have hB := ph_of_inTask hi l.tid
   step_cases h
   all_goals (
     by_cases ht : u = l.tid
@@ -71,6 +79,8 @@ theorem deqNonempty_step (hi : Inv s) (h : step s l = some s') : ∀ u, s'.pc u 
   have h4 := hi.breakChk l.tid
   have h5 := hi.goneAll
   have h6 := hi.othersNotM l.tid
+  have hA := ph_of_pastChk hi l.tid
+  have hB := ph_of_inTask hi l.tid
   step_cases h
   all_goals (
     by_cases ht : u = l.tid
@@ -85,6 +95,8 @@ theorem exitShut_step (hi : Inv s) (h : step s l = some s') : ∀ u, exiting (s'
   intro u hu
   have h1 := hi.exitShut u
   have h2 := hi.breakLen l.tid
+  have hA := ph_of_pastChk hi l.tid
+  have hB := ph_of_inTask hi l.tid
   step_cases h
   all_goals (
     by_cases ht : u = l.tid
@@ -100,6 +112,8 @@ theorem exitAllEmpty_step (hi : Inv s) (h : step s l = some s') :
   have h3 := hi.liveHandle l.tid
   have h4 := hi.shutNo
   have h5 := hi.othersNotM l.tid
+  have hA := ph_of_pastChk hi l.tid
+  have hB := ph_of_inTask hi l.tid
   step_cases h
   all_goals (
     by_cases ht : u = l.tid
